@@ -39,8 +39,18 @@ def specs_for(tier, seed):
             if tier == "thorough" or (pi + len(f)) % 2 == seed % 2:
                 add(kind, nth, f, 3, "no problem document")
         if tier == "thorough":
-            for f in ["drop_before", "drop_after", "acme:badNonce:400:nononce", "acme:serverInternal:500:nononce"]:
+            for f in ["drop_before", "drop_after"]:
                 add(kind, nth, f, 2, "lost / nonce-less")
+            for t in RECOVERABLE:
+                for L in (1, 2, 10, 11):
+                    add(kind, nth, "acme:%s:%d:nononce" % (t, 400 if L % 2 else 500), L, "recoverable run without Replay-Nonce")
+        else:
+            # error answers need not carry a Replay-Nonce (RFC 8555 6.5): the retry has to fetch one
+            rec = sorted(RECOVERABLE)
+            add(kind, nth, "acme:%s:400:nononce" % rec[pi % len(rec)], 1, "recoverable run without Replay-Nonce")
+            add(kind, nth, "acme:%s:500:nononce" % rec[(pi + 3) % len(rec)], [2, 10, 11][pi % 3], "recoverable run without Replay-Nonce")
+            if pi % 3 == seed % 3:
+                add(kind, nth, "drop_after", 2, "lost / nonce-less")
     # GET positions: no retry loop at all
     for (kind, n, m) in pos:
         if m != "POST":
